@@ -261,6 +261,12 @@ func (p *Proc) evalIdent(ec *ectx, id *ast.Ident) Val {
 				if i < len(ec.results) {
 					return ec.results[i]
 				}
+				// a procedure without results may have a local variable of that name
+				if o, ok := p.lookupName(ec, id.Name, ec.pos).(*types.Var); ok && o != nil {
+					if _, bound := ec.st.vars[o]; bound {
+						return p.evalObject(ec, o, id)
+					}
+				}
 				p.failf(id, "%s: no such result %s", ec.where, id.Name)
 			}
 			if gt, ok := p.ctx.dirs.GhostVars[id.Name]; ok {
